@@ -47,12 +47,16 @@ func WaitCond(ctx context.Context, cond *sync.Cond, fn func() bool) error {
 				ctx, cancel = context.WithCancel(ctx)
 				//noinspection GoDeferInLoop
 				defer cancel()
+				verifPoint("wc.spawn", cond, 0)
 				go func() {
+					verifPoint("wc.watcher.start", cond, 0)
 					<-ctx.Done()
+					verifPoint("wc.watcher.cancelled", cond, 0)
 					locked := false
 					if l := cond.L; l != nil {
 						locked = true
 						l.Lock()
+						verifPoint("wc.watcher.locked", cond, 0)
 						defer l.Unlock()
 					}
 					cond.Broadcast()
@@ -62,9 +66,12 @@ func WaitCond(ctx context.Context, cond *sync.Cond, fn func() bool) error {
 				}()
 			}
 		}
+		verifPoint("wc.pred", cond, 0)
 		if fn() {
 			return nil
 		}
+		verifPoint("wc.wait", cond, 0)
 		cond.Wait()
+		verifPoint("wc.woke", cond, 0)
 	}
 }
